@@ -38,7 +38,21 @@ def natural_matrix(ctx):
              terminal_psi="none", screening=True, screening_tol=1e-2),
         dict(label="film/no-terminals", dev="film", field=0.6, current=0.0, steps=6, ramp=None, terminal_psi=[0.0, 0.0]),
     ]
+    # adaptive steps with refusals: the value must hold after EVERY accepted Euler step, retried or not
+    ad = dict(dt_init=0.02, dt_max=0.5, solve_time=1.0)
+    for name, v in vals:
+        runs.append(dict(label=f"bar/psi={name}/adaptive-retries", dev="bar", field=0.6, current=6.0, adaptive=ad, ramp=None,
+                         terminal_psi=v, need_retries=3))
+    runs.append(dict(label="barhole/psi=0.5+0.2j/adaptive-retries", dev="barhole", field=0.8, current=8.0,
+                     adaptive=dict(dt_init=0.05, dt_max=0.5, solve_time=1.0), ramp=None, terminal_psi=[0.5, 0.2], need_retries=3))
     if not ctx.quick:
+        for name, v in vals + [("-1", [-1.0, 0.0])]:
+            runs.append(dict(label=f"bar/psi={name}/adaptive-retries/strong", dev="bar", field=1.0, current=20.0,
+                             adaptive=dict(dt_init=0.25, dt_max=2.0, solve_time=3.0), ramp=None, terminal_psi=v, need_retries=3))
+            runs.append(dict(label=f"bar/psi={name}/adaptive/default-like", dev="bar", field=0.5, current=5.0,
+                             adaptive=dict(dt_init=1e-4, dt_max=0.1, solve_time=0.6, window=10), ramp=None, terminal_psi=v))
+            runs.append(dict(label=f"tee/psi={name}/adaptive-retries/ramp", dev="tee", field=0.8, current=0.0,
+                             adaptive=dict(dt_init=0.1, dt_max=1.0, solve_time=2.0), ramp=dict(r1=0.5, T1=1e9), terminal_psi=v))
         for dev in ("bar", "barhole", "tee", "cross"):
             for name, v in vals + [("-1", [-1.0, 0.0]), ("0.3j", [0.0, 0.3])]:
                 for fld, cur in ((0.0, 3.0), (0.8, 0.0), (0.4, 6.0)):
@@ -82,21 +96,34 @@ def solver_level(ctx):
     nat = natural_matrix(ctx)
     results = rf.replay_all(ctx, [("call", dict(module="harness.opscache", func="natural_run", args=a)) for a in nat])
     nat, nat_traces = oc.split_aborted(ctx, nat, results)
+    # vacuity guard: the runs meant to exercise the retry path must have retried steps
+    for a, t in zip(nat, nat_traces):
+        if a.get("need_retries") and t["info"]["retried_steps"] < a["need_retries"]:
+            raise core.MachineryFailure(f"C06: run {a['label']} has only {t['info']['retried_steps']} retried steps "
+                                        f"(needs >= {a['need_retries']}): the retry path is not exercised")
+    ctx.cov["retried_steps_observed"] = {a["label"]: [t["info"]["retried_steps"], t["info"]["steps"]]
+                                         for a, t in zip(nat, nat_traces) if a.get("adaptive")}
+    if sum(1 for a in nat if a.get("need_retries")) < 3:
+        raise core.MachineryFailure("C06: fewer than 3 adaptive runs with retries completed")
     # ---- 2. solver level: which pin mechanism does the code implement?  (TLC decides)
     if not any(t["v"] == "nonzero" for t in nat_traces):
         raise core.MachineryFailure("C06: no natural run with a nonzero terminal value")
-    full, res = oc.identify_mechanism(ctx, nat_traces, "MReimpose", [True, False], oc.REPAIRED, "C06 natural runs")
-    if len(full) == 2:
-        raise core.MachineryFailure("C06: the natural runs do not discriminate the pin mechanisms")
-    reimpose = full[0] if full else True
-    mech = dict(oc.REPAIRED, MReimpose=reimpose)
-    ctx.cov["mechanism_identified_by_trace_validation"] = {"MReimpose": reimpose if full else None}
+    cands = {"re-imposed after every accepted Euler step": oc.REPAIRED,
+             "identity row only (pinned code)": dict(oc.REPAIRED, MReimpose=False),
+             "re-imposed only when the step was not retried": dict(oc.REPAIRED, MReimposeOnRetry=False)}
+    full, res = oc.identify_among(ctx, nat_traces, cands, "C06 natural runs")
+    if len(full) >= 2:
+        raise core.MachineryFailure(f"C06: the natural runs do not discriminate the pin mechanisms {full}")
+    which = full[0] if full else "re-imposed after every accepted Euler step"
+    mech = cands[which]
+    reimpose = mech["MReimpose"] and mech["MReimposeOnRetry"]
+    ctx.cov["mechanism_identified_by_trace_validation"] = {"pin": which if full else None}
     sb = dict(oc.STEP_DEFAULT) if ctx.quick else dict(oc.STEP_DEFAULT, MaxSteps=5, MaxIter=2, AMax=4, IMax=4)
     ctx.cov["bounds"]["OpsCache/SpecStep"] = sb
     small = dict(oc.STEP_DEFAULT, Dyns=[False], MaxSteps=2)
     thunks = [lambda: oc.model_check(ctx, sb, mech, oc.INV_C06_STEP, "SpecStep", "ViewStep",
-                                     f"OpsCache/SpecStep[C06, terminal value re-imposed after the Euler step: {reimpose}]",
-                                     required=["Ctor", "FieldStep", "TrigRefresh", "Links", "NoLinks", "Euler", "InducedStep", "Finish"]),
+                                     f"OpsCache/SpecStep[C06, pin mechanism of the code under test: {which}]",
+                                     required=["Ctor", "FieldStep", "TrigRefresh", "Links", "NoLinks", "EulerStep", "InducedStep", "Finish"]),
               lambda: ctx.model_check("OpsCache", oc.cfg_text(small, oc.PINNED, ["PinnedSitesStayPinned"], "SpecStep", view="ViewStep"),
                                       name="OpsCache/SpecStep[identity row only (pinned code) must violate PinnedSitesStayPinned]",
                                       expect_violation="PinnedSitesStayPinned", count=False),
@@ -108,6 +135,11 @@ def solver_level(ctx):
                                                               ["UnsetMeansFree"], "SpecStep", view="ViewStep"),
                                       name="OpsCache/SpecStep[fix_psi ignored must violate UnsetMeansFree]",
                                       expect_violation="UnsetMeansFree", count=False)]
+    thunks.append(lambda: ctx.model_check(
+        "OpsCache", oc.cfg_text(dict(small, Vs=["nonzero"], Scrs=[False]), dict(oc.REPAIRED, MReimposeOnRetry=False),
+                                ["PinnedSitesStayPinned"], "SpecStep", view="ViewStep"),
+        name="OpsCache/SpecStep[value re-imposed only when the step was not retried must violate PinnedSitesStayPinned]",
+        expect_violation="PinnedSitesStayPinned", count=False))
     out = {}
 
     def judge():       # every recorded run, every state (every step, every saved frame): the clauses themselves
@@ -126,11 +158,15 @@ def solver_level(ctx):
             ctx.violation(f"C06:{clause}:natural:{a['label']}",
                           f"C06: real solver run '{a['label']}' ({info['sites']} sites, {info['terminal_sites']} terminal sites, "
                           f"{info['steps']} steps): {clause} is false in {len(bad[n])} states, first at event {pos}; the order "
-                          f"parameter on the terminal sites leaves the configured value {a['terminal_psi']}: max deviation in the "
-                          f"saved frames {info['max_terminal_deviation_in_frames']:.3g}",
+                          f"parameter on the terminal sites leaves the configured value {a['terminal_psi']}: max deviation after an "
+                          f"update {info['max_terminal_deviation_after_update']:.3g} (in the saved frames "
+                          f"{info['max_terminal_deviation_in_frames']:.3g}; {info['retried_steps']} retried steps)",
                           {"input": a, "info": info, "false_clauses": bad[n][:20], "trace": tr, "mechanism": mech})
         elif n not in acc:
-            oc.report_rejected(ctx, "C06:natural", a["label"], tr, mech, oc.INV_C06_STEP, {"input": a, "info": info})
+            oc.report_rejected(ctx, "C06:natural", f"{a['label']} (retried steps {info['retried_steps']}/{info['steps']}, max "
+                               f"deviation on terminal sites after an update {info['max_terminal_deviation_after_update']:.3g}, "
+                               f"after a retried update {info['max_terminal_deviation_after_retried_update']:.3g})",
+                               tr, mech, oc.INV_C06_STEP, {"input": a, "info": info})
     goodn = [n for n in sorted(acc) if n not in bad]
     for n in goodn[:4]:
         ctx.sample({"level": "step", "input": nat[n], "events": [e["ev"] for e in nat_traces[n]["ev"]][:16],
